@@ -1,4 +1,5 @@
 // @id C13.defaults
+// @also C06
 // @engine B
 // @entry vfh_C13_defaults
 // @tier Q
